@@ -22,6 +22,7 @@ func init() {
 			chanCapRule(r, "/iscp.Conn.replyCallChs", 1)
 			ruleC16E5(r)
 			ruleNameAgreement(r, "E7", "/iscp", "/wire")
+			ruleErrorDiscipline(r, "E8")
 			ruleLockPairingFor(r, le, "E6", "lock pairing in the call correlation paths: every function touching the waiter tables releases their mutexes on every path", func(fn *ssa.Function) bool {
 				for _, a := range collectAccesses(fn) {
 					fk := fieldKey(a.Owner, a.Field)
